@@ -261,3 +261,10 @@ def run(ctx):
         ctx.check(not missing, "R4.5", where, f"{name.split(' in ')[0]}|sufficient",
                   f"{name}: the encode set lacks {[chr(x) if 32 < x < 127 else hex(x) for x in missing]}, so a value containing it reaches the handler altered — " + c07.missing_text(spec, missing),
                   instance=f"{name}: superset of the {len(need)} bytes the server decoders interpret")
+    # ---------------- R4.6 / R4.7 body reassembly and PLAIN parameter text (shared with C18 / C12)
+    from . import c18, c12, c03
+    ctx.include(c03, {"R3.6"}, "R4.9", "client and server generators must classify the return / argument type alike (204 shortcuts, decoders)")
+    ctx.include(c07, {"R7.7", "R7.5"}, "R4.8", "each path argument must be written into the template segment of its own name and decoded by the inverse steps")
+    ctx.include(c18, {"R18.5"}, "R4.6", "request and response bodies must reach the decoder complete (every chunk, until the stream ends)")
+    ctx.include(c12, {"R12.1", "R12.2", "R12.3", "R12.4", "R12.5"}, "R4.7", "path / query / header arguments travel as PLAIN text and must parse back to the same value")
+
